@@ -63,7 +63,7 @@ theorem substituteCore_cert' (h m : NNet) (c : Nat) (hw : WF h) (mw : WF m) (hc 
     (h5 : NNet) (map : Array (Option Nat)) (dang : List (Option Nat)) (he : substituteCore h c m = some (h5, map, dang)) :
     ∃ sh dn, SubstCert h c m sh dn map h5 := by
   obtain ⟨sh, dn, hs, hd, hni⟩ := noIgnoredB_spec h c m hr
-  obtain ⟨k1, k2, k3, k4⟩ := implOKB_spec m sh dn hs hd hok
+  obtain ⟨k1, k2, k3, k4⟩ := implOKB_spec m mw sh dn hs hd hok
   exact ⟨sh, dn, substituteCore_cert h c m sh dn hw mw hc (by simpa using hio) hcf hs hd k1 k2 k3 k4 hni h5 map dang he⟩
 
 theorem Ren.id_comp (r : Ren) : Ren.id.comp r = r := rfl
